@@ -115,10 +115,20 @@ SetProject(call, w) ==
                         \cup {<<"<positional>", VArr(PEvalSeq(a.c, w.env, <<>>))>>},
                  !.dopts = IF dk = <<>> THEN {} ELSE DefaultOptions(PEval(dk[1].c[2], w.env, <<>>))]
 
+\* The rewriter's static interpreter evaluates both branches of ?: and both operands of and / or, whatever the
+\* condition says.  A build file in which an operand that is never evaluated would fail is outside what the rewriter
+\* supports (and outside the generated inputs): such a file is flagged `bad`.
+RECURSIVE Eager(_, _, _)
+Eager(node, env, dir) ==
+    /\ (node.k \in {"ternary", "and", "or"} => \A j \in 1..Len(node.c) : ~Rejected(PEval(node.c[j], env, dir)))
+    /\ IF node.k = "kw" THEN Eager(node.c[2], env, dir)
+       ELSE (\A j \in 1..Len(node.c) : Eager(node.c[j], env, dir)) /\ (\A j \in 1..Len(node.d) : Eager(node.d[j], env, dir))
+
 RECURSIVE WalkLines(_, _, _, _, _), WalkStmt(_, _, _, _), WalkArms(_, _, _, _, _)
 
 WalkLines(lines, i, w, dir, trees) ==
-    IF i > Len(lines) THEN w ELSE WalkLines(lines, i + 1, WalkStmt(lines[i], w, dir, trees), dir, trees)
+    IF i > Len(lines) THEN w
+    ELSE WalkLines(lines, i + 1, WalkStmt(lines[i], [w EXCEPT !.bad = @ \/ ~Eager(lines[i], w.env, dir)], dir, trees), dir, trees)
 
 \* every arm of an if statement, in order
 WalkArms(node, j, w, dir, trees) ==
